@@ -587,7 +587,10 @@ def events_for(prop, case, res, D, ctr):
                     exp.append(tuple(pst[i - 1]))
                     i += 1
             case["meta"]["exp_absent"] = exp
-            if "absent" in R and R["absent"]["o"]["res"] not in ("ok", "fse"):
+            _o = R["absent"]["o"] if "absent" in R else {}
+            # (what is left when the files are absent need not be valid - an INCLUDE range may cut through units - and an END name that
+            # then meets the wrong opening statement leaves through reader.error(): that is C06's known finding KF-C06-1, not an INCLUDE matter)
+            if "absent" in R and _o["res"] not in ("ok", "fse") and not (_o.get("type") == "SystemExit" and str(_o.get("site", "")).endswith("FortranReaderBase.error")):
                 claim("clean", "absent")            # anything but a tree or a syntax error: the unresolved INCLUDE line was not "kept"
             if "absent" in R and R["absent"]["o"]["res"] == "ok":
                 # "provided the source is valid with it in place": only claimed when the parser accepts
